@@ -15,7 +15,13 @@ MANIFEST = {
  'technique': 'Lean 4 proof (induction over strings / histories, invariants) + table extraction + differential correspondence',
  'design_ref': 'DESIGN.md §6 C15',
 }
-THEOREMS = []   # filled below (kept in one place with the Lean side)
+THEOREMS = ['C15.quotes_table_ok', 'C15.bool_table_ok', 'C15.lists_table_ok', 'C15.header_table_ok',
+            'C15.codec_roundtrip', 'C15.repr_roundtrip', 'C15.string_roundtrip', 'C15.string_file_roundtrip',
+            'C15.bool_roundtrip', 'C15.int_parse_print', 'C15.int_roundtrip',
+            'C15.space_list_roundtrip_partial', 'C15.comma_list_roundtrip_partial',
+            'C15.space_list_counterexample', 'C15.comma_list_empty_counterexample', 'C15.comma_list_counterexample',
+            'C15.reject_atomic', 'C15.reject_atomic_setValue', 'C15.getSpecific_sound', 'C15.override_local',
+            'C15.follow_general', 'C15.fresh_child_inherits', 'C15.reset_network_follows', 'C15.file_always_loads']
 TRUSTED = ['Lean 4.33.0 kernel; axioms ⊆ {propext, Classical.choice, Quot.sound}',
            'harness/extractors/registry.py (constants of src/registry.py, utils/str.py, class inventory → Gen/Registry.lean)',
            'harness/c15.py generators + canonicalisation; hex line protocol',
@@ -527,6 +533,66 @@ def stream_names(I, R, r, n):
               lambda o, c: None if (o == 'fail' and c.impl is None) else o)
 
 
+
+HELPS = ['help', 'a help text\nwith a newline', 'x' * 90, 'tab\there and \x85 and   and é', '  leading', '# hash', 'w ' * 70,
+         'well-known hyphen-ated words ' * 4, 'back\\slash \\n', '']
+
+def stream_close(I, R, r, n):
+    """whole files: several values with random defaults and help texts through registry.close; the model renders
+    the same file (help wrapped by the real textwrap = parameter); the real reader must accept it"""
+    import textwrap
+    reg = I.registry
+    keys = [k for k in I.classes if not k.endswith('Set') and k != 'normalized']
+    for _ in range(n):
+        I.reset_cache()
+        root = reg.Group(); root.setName('vt')
+        specs = []; items = []
+        for i in range(r.randint(1, 6)):
+            k = r.choice(keys)
+            d = gen_accepted(r, k); v = gen_accepted(r, k)
+            if r.random() < 0.3:
+                d = r.choice(['a\nb', 'x\rvt.other: injected', '\n', 'é\n# c', 'a\\']) if k in STR_CLASSES else d
+            if not all(valid_unicode(t) for t in ([d] if isinstance(d, str) else d if isinstance(d, list) else []) + ([v] if isinstance(v, str) else v if isinstance(v, list) else [])):
+                continue
+            h = r.choice(HELPS)
+            show = r.random() < 0.8
+            try:
+                node = I.classes[k](d, h, showDefault=show)
+                root.register('v%d' % i, node)
+                node.setValue(v)
+            except reg.InvalidRegistryValue:
+                continue
+            stored = canon_value(node.value)
+            dnode = I.classes[k](d, h)
+            dstored = canon_value(dnode.value)
+            wrapped = textwrap.wrap(node._help) if node.help() else None
+            specs.append('%s;%s;%s;%s;%s' % (k, wrire_enc('vt.v%d' % i), enc_val(stored),
+                                              '~' if wrapped is None else wire.enc_list(wrapped),
+                                              enc_val(dstored) if show and wrapped is not None else '~'))
+            items.append((k, 'vt.v%d' % i, stored, d, h))
+        I.exceptions[:] = []
+        reg.close(root, I.fn)
+        text = open(I.fn, encoding='utf-8', newline='').read()
+        ok = True; msg = ''
+        try:
+            reg.open_registry(I.fn, clear=True)
+            cache = dict((kk.lower(), vv) for kk, vv in reg._cache.items())
+            extra = sorted(set(cache) - set(nm.lower() for _, nm, _, _, _ in items))
+            if extra:
+                ok = False; msg = 'loading the saved file assigns variables that were not saved: %r' % extra
+        except reg.InvalidRegistryFile as e:
+            ok = False; msg = 'the saved file does not load: %s' % e
+        if I.exceptions:
+            ok = False; msg = 'registry.close swallowed an exception: %r' % I.exceptions[:1]
+        allv = [x for it in items for x in ([it[2]] if isinstance(it[2], str) else it[2] if isinstance(it[2], list) else [])] + \
+               [x for it in items for x in ([it[3]] if isinstance(it[3], str) else it[3] if isinstance(it[3], list) else [])]
+        c = Case({'op': 'close', 'values': [{'class': k, 'name': nm, 'value': st, 'default': d, 'help': h} for k, nm, st, d, h in items]},
+                 impl=wire.enc(text), oracle_ok=ok, oracle_msg=msg, kind='close',
+                 tags=('close', 'n%d' % len(items)) + (('default-newline',) if any(isinstance(it[3], str) and ('\n' in it[3] or '\r' in it[3]) for it in items) else ()))
+        R.add(c, 'close\t%s\t%s' % (PR(*allv), '|'.join(specs) if specs else '-'))
+
+def wrire_enc(s): return wire.enc(s)
+
 # ------------------------------------------------------------------------------------------
 # value tree histories
 # ------------------------------------------------------------------------------------------
@@ -917,6 +983,7 @@ def explore(ctx, scale, seed_stream='c15'):
     stream_texts(I, R, r, 3000 * scale)
     stream_files(I, R, r, 1500 * scale)
     stream_names(I, R, r, 1500 * scale)
+    stream_close(I, R, r, 400 * scale)
     stream_tree(I, R, r, 250 * scale)
     return I, R
 
